@@ -264,6 +264,9 @@ pub trait BackendOps: Sync {
     /// Mixed workload of `threads` harness threads on one shared Module / keys / ciphertexts.
     /// With `cfg = None` the per-thread op lists run one after the other on the calling thread.
     fn shared(&self, spec: &SharedSpec, cfg: Option<sched::Config>) -> RunResult;
+    /// C12 inventory of single-call ops (see c12/ops.rs)
+    fn core_op(&self, op: &str, shape: &crate::c12::ops::Shape, w: &Window) -> RunResult;
+    fn core_ops(&self) -> &'static [&'static str];
 }
 
 pub fn backend(name: &str) -> &'static dyn BackendOps {
@@ -481,6 +484,8 @@ macro_rules! backend_impl {
                 crate::util::fnv(&ct.data().data)
             }
 
+            crate::c12::ops::core_ops_impl!(BE);
+
             pub struct Ops;
             pub static B: Ops = Ops;
 
@@ -588,6 +593,13 @@ macro_rules! backend_impl {
                         }};
                     }
                     if spec.word_bits == 16 { go!(u16, &b.word16) } else { go!(u8, &b.word8) }
+                }
+
+                fn core_op(&self, op: &str, shape: &crate::c12::ops::Shape, w: &Window) -> RunResult {
+                    ops::core_op(op, shape, w)
+                }
+                fn core_ops(&self) -> &'static [&'static str] {
+                    ops::OPS
                 }
 
                 fn shared(&self, spec: &SharedSpec, cfg: Option<sched::Config>) -> RunResult {
